@@ -203,6 +203,7 @@ _ROUND7 = {
     "C04": " Also a stream consumer that stops listening after k events (closes the generator) and attaches again at an explorer-chosen point: the two sittings together must be the published stream, ending with the terminal event.",
     "C05": " Also an attempt (first or a retry) that waits with a timeout which expires: the waiting time belongs to the attempt, retry number / previous exception / first-attempt time carry over.",
     "C06": " Early-retry witnesses carry the root-cause key delay_is_the_next_retrys (the recorded one-step-ahead defect has it true).",
+    "C09": " Also a collector for [A, B, B, C] fed one event at a time whose run is paused and resumed (once / twice) and whose state is read mid-run (ctx.to_dict() / running_steps()) at explorer-chosen points.",
     "C12": " Also a waiting step (with requirements) whose input event is accepted by a second, auditing step: after a resume only the waiting step runs again on that input.",
     "C13": " Also a fan-in whose items are RETURNED by producer steps (fan_keeper_returned), with the double-stop points that reach a half-filled fan-in buffer in the quick tier; bound 4 (quick) / 5 on the suspending-store restart programs; with the one write fault, a finalization that is merely delayed is judged after one more fault-free restart.",
     "C15": " Also a restarted server over a store whose reads suspend while the client's answer reloads the run on demand (C13's driver, judged on the handler record).",
